@@ -64,8 +64,8 @@ func registry() map[string]*Rule {
 		{Name: "NORM1", Floor: 1, Run: ruleNORM1, Doc: "Where(x) in the root package receives only the asserted result of the literal-normalising visitor applied to the query's own Criteria()"},
 		{Name: "RNG1", Floor: 4, Run: ruleRNG1, Doc: "a value stored into a field of index.Range is computed only from the same field of other ranges (including short-circuit conditions)"},
 		{Name: "ADP5", Floor: 1, Run: ruleADP5, Doc: "a delete-while-iterating scan (Index.Drop) is not preceded by another store write in the same function/transaction (bbolt and badger diverge otherwise)"},
-		{Name: "OPS4", Floor: 20, Run: ruleOPS4, Doc: "abstract evaluation with injected operand results: And/Or/Not return their truth tables on every path; Gt/GtEq/Lt/LtEq/Eq apply the right relation to the three-way comparison result"},
-		{Name: "OPS5", Floor: 30, Run: ruleOPS5, Doc: "abstract evaluation of UnaryCriteria.Satisfy over every equality pattern between listed operands and document values (lists/arrays of length 1-2): In = some equal, Contains = every listed element found, Eq = present and equal, Exists = present"},
+		{Name: "OPS4", Floor: 0, Run: ruleOPS4, Doc: "abstract evaluation with injected operand results: And/Or/Not return their truth tables on every path; Gt/GtEq/Lt/LtEq/Eq apply the right relation to the three-way comparison result"},
+		{Name: "OPS5", Floor: 0, Run: ruleOPS5, Doc: "abstract evaluation of UnaryCriteria.Satisfy over every equality pattern between listed operands and document values (lists/arrays of length 1-2): In = some equal, Contains = every listed element found, Eq = present and equal, Exists = present"},
 		{Name: "RNG2", Floor: 2, Run: ruleRNG2, Doc: "specialised on the direction flag, the conditions inside the emission loop of a range scan read only the far bound's Range fields"},
 	}
 	m := map[string]*Rule{}
